@@ -269,6 +269,7 @@ func sessionC09(r *vk.Run, rng *rand.Rand, wkr, idx int) {
 	cy := st.Position
 	L := st.MatchCount
 	var hist []string
+	var script []string
 	nsteps := 10 + rng.Intn(50)
 	sig := fmt.Sprintf("%s multi%d cycle%v n%d rows%d", layout, limitClass(limit), cycle, nitems, rowsClass(rows))
 	if track {
@@ -289,7 +290,18 @@ func sessionC09(r *vk.Run, rng *rand.Rand, wkr, idx int) {
 	}
 	for k := 0; k < nsteps; k++ {
 		var act, arg string
+		// scripted: as many items selected as the next query matches, but other ones; then toggle-all
+		if len(script) == 0 && limit == 1<<30 && nitems == 200 && !noInput && rng.Intn(30) == 0 {
+			script = []string{"change-query:a1", "select-all:", "change-query:b2", "toggle-all:", "change-query:ab", "toggle-all:"}
+		}
+		scripted := false
+		if len(script) > 0 {
+			kv := strings.SplitN(script[0], ":", 2)
+			act, arg, scripted = kv[0], kv[1], true
+			script = script[1:]
+		}
 		switch c := rng.Intn(10); {
+		case scripted:
 		case c < 4 && !noInput:
 			act = editActs[rng.Intn(len(editActs))]
 		case c < 2 && noInput:
@@ -308,7 +320,9 @@ func sessionC09(r *vk.Run, rng *rand.Rand, wkr, idx int) {
 			arg = putBits[rng.Intn(len(putBits))]
 			post = "put(" + arg + ")"
 		case "change-query":
-			arg = putBits[rng.Intn(len(putBits))] + " " + putBits[rng.Intn(len(putBits))] + putBits[rng.Intn(len(putBits))]
+			if !scripted {
+				arg = putBits[rng.Intn(len(putBits))] + " " + putBits[rng.Intn(len(putBits))] + putBits[rng.Intn(len(putBits))]
+			}
 			post = "change-query(" + arg + ")"
 		case "pos":
 			arg = fmt.Sprint(rng.Intn(2*L+7) - L - 3)
